@@ -3,7 +3,6 @@ import VaxisModel.Spec.Wrap
 import VaxisModel.Lemmas.Wrap
 import VaxisModel.Lemmas.WrapE2E
 import VaxisModel.Lemmas.WrapSplit
-import VaxisModel.Witness.F116
 
 /-! C16, end-to-end statements: the position oracles of `Spec.Wrap` that the driver evaluates on the
 real scanners' output (`hardBreakOK`, `noNeedlessSplit`, `conserved`) are *theorems* of the model of
@@ -16,14 +15,14 @@ open VaxisModel.Spec.Wrap (nonWs content conserved hardBreakOK noNeedlessSplit n
 /-- "A hard line break always ends the current line", end to end: in the lines of the whole
 iteration, two consecutive non-whitespace graphemes of the input that are separated by a line
 terminator never share a line (`Spec.Wrap.hardBreakOK`, the oracle the driver evaluates on the real
-output).  `OracleTermW o Fresh`: a segment has a terminator only as its last cell, with the
-must-break flag (`strong`), for every query whose state belongs to its position; for the stale
-queries text.go makes after splitting a long word (F116) the first cell is exempt (`weak`). -/
-theorem hard_break_end_to_end {σ : Type} (o : σ → List Cell → Nat × Bool × σ) (hok : OracleOK o)
-    (Fresh : σ → List Cell → Prop) (hot : OracleTermW o Fresh) (width : Nat) (hw : 0 < width)
-    (cells : List Cell) (st0 : σ)
-    (ls : List (List Cell)) (h : lines o width cells st0 = .ok ls) : hardBreakOK cells ls = true :=
-  lines_hardBreakOK o hok hot width hw cells st0 ls h
+output).  `OracleTermW o ini Fresh`: for every query whose state belongs to its position (`Fresh`:
+the state returned with the remainder, or the state `ini` = -1 that text.go stores after splitting a
+long word — F116 fix) a segment has a terminator only as its last cell, with the must-break flag. -/
+theorem hard_break_end_to_end {σ : Type} (o : σ → List Cell → Nat × Bool × σ) (ini : σ) (hok : OracleOK o)
+    (Fresh : σ → List Cell → Prop) (hot : OracleTermW o ini Fresh) (width : Nat) (hw : 0 < width)
+    (cells : List Cell) (st0 : σ) (hf0 : Fresh st0 cells)
+    (ls : List (List Cell)) (h : lines o ini width cells st0 = .ok ls) : hardBreakOK cells ls = true :=
+  lines_hardBreakOK o ini hok hot width hw cells st0 hf0 ls h
 
 /-- The transcribed `richtext.firstLineSegment` meets the strong form on every query, for every
 pairwise break function. -/
@@ -33,47 +32,36 @@ theorem rich_oracle_term (lb : Nat → Nat → Bool) : OracleTerm (richOracle lb
 theorem rich_hard_break_end_to_end (lb : Nat → Nat → Bool) (width : Nat) (hw : 0 < width)
     (cells : List Cell) (ls : List (List Cell)) (h : richLines lb width cells = .ok ls) :
     hardBreakOK cells ls = true :=
-  lines_hardBreakOK _ (richOracle_ok lb) (richOracle_term lb).toW width hw cells () ls h
+  lines_hardBreakOK _ () (richOracle_ok lb) ((richOracle_term lb).toW ()) width hw cells () trivial ls h
 
 /-- The whole iteration cuts the text into consecutive pieces, one per line: the input is the
 concatenation of the pieces, line `i` holds exactly the non-whitespace graphemes (with styles) of
-piece `i`, and a piece has a line terminator at most as its first or last cell.  (Whole-text
-conservation `Props.C16.conservation` is the corollary `content ls.flatten = content cells`.) -/
-theorem lines_are_pieces {σ : Type} (o : σ → List Cell → Nat × Bool × σ) (hok : OracleOK o)
-    (Fresh : σ → List Cell → Prop) (hot : OracleTermW o Fresh) (width : Nat) (hw : 0 < width)
-    (cells : List Cell) (st0 : σ)
-    (ls : List (List Cell)) (h : lines o width cells st0 = .ok ls) :
-    ∃ ps, cells = ps.flatten ∧ (∀ k, lineIdxFrom k ls = lineIdxFrom k ps) ∧ ∀ p ∈ ps, TermFL p :=
-  scanAll_pieces o hok hot width hw _ cells st0 ls h
+piece `i`, and a piece has a line terminator at most as its last cell.  (Whole-text conservation
+`Props.C16.conservation` is the corollary `content ls.flatten = content cells`.) -/
+theorem lines_are_pieces {σ : Type} (o : σ → List Cell → Nat × Bool × σ) (ini : σ) (hok : OracleOK o)
+    (Fresh : σ → List Cell → Prop) (hot : OracleTermW o ini Fresh) (width : Nat) (hw : 0 < width)
+    (cells : List Cell) (st0 : σ) (hf0 : Fresh st0 cells)
+    (ls : List (List Cell)) (h : lines o ini width cells st0 = .ok ls) :
+    ∃ ps, cells = ps.flatten ∧ (∀ k, lineIdxFrom k ls = lineIdxFrom k ps) ∧ ∀ p ∈ ps, TermLast p :=
+  scanAll_pieces o ini hok hot width hw _ cells st0 ls hf0 h
 
 /-- The literal reading of "a hard line break always ends the current line": no emitted line
-contains a line terminator (`Spec.Wrap.noTermInLines`).  Full statement, for the hypotheses that
-are true of uniseg as text.go calls it — **false** of the current code (finding F116, stale
-segmenter state after a long-word split): `Witness.F116.no_terminator_full_fails`. -/
-def lines_no_terminator_full : Prop :=
-  ∀ (o : Nat → List Cell → Nat × Bool × Nat) (Fresh : Nat → List Cell → Prop),
-    OracleOK o → OracleTermW o Fresh → ∀ (width : Nat), 0 < width →
-    ∀ (cells : List Cell), (∀ c ∈ cells, c.term = true → c.sp = true) →
-    ∀ (st0 : Nat) (ls : List (List Cell)), lines o width cells st0 = .ok ls →
-    noTermInLines ls = true
+contains a line terminator (`Spec.Wrap.noTermInLines`) — for every text whose terminators are
+whitespace (true of Unicode: BK, CR, LF, NL are all `unicode.IsSpace`), every width, every oracle.
+True of text.go since the F116 fix (before it the scanner queried uniseg with the state of another
+position after a long-word split, and a terminator standing first in the remainder was emitted
+inside the next line: " 世\nb" at width 1 gave " ", "世", "\nb"). -/
+theorem lines_no_terminator {σ : Type} (o : σ → List Cell → Nat × Bool × σ) (ini : σ) (hok : OracleOK o)
+    (Fresh : σ → List Cell → Prop) (hot : OracleTermW o ini Fresh) (width : Nat) (cells : List Cell)
+    (hsp : ∀ c ∈ cells, c.term = true → c.sp = true) (st0 : σ) (hf0 : Fresh st0 cells)
+    (ls : List (List Cell)) (h : lines o ini width cells st0 = .ok ls) : noTermInLines ls = true :=
+  scanAll_noterm o ini hok hot width _ cells st0 ls hf0 hsp h
 
-theorem lines_no_terminator_full_fails : ¬ lines_no_terminator_full :=
-  VaxisModel.Witness.F116.no_terminator_full_fails
-
-/-- …proved when every query is strong (`OracleTerm`: no stale state), for texts whose terminators
-are whitespace (true of Unicode: BK, CR, LF, NL are all `unicode.IsSpace`): every width, every
-text. -/
-theorem lines_no_terminator_partial {σ : Type} (o : σ → List Cell → Nat × Bool × σ) (hok : OracleOK o)
-    (hot : OracleTerm o) (width : Nat) (cells : List Cell)
-    (hsp : ∀ c ∈ cells, c.term = true → c.sp = true) (st0 : σ)
-    (ls : List (List Cell)) (h : lines o width cells st0 = .ok ls) : noTermInLines ls = true :=
-  scanAll_noterm o hok hot width _ cells st0 ls hsp h
-
-/-- richtext has no segmenter state: the literal reading holds unconditionally. -/
+/-- richtext has no segmenter state: unconditional. -/
 theorem rich_lines_no_terminator (lb : Nat → Nat → Bool) (width : Nat) (cells : List Cell)
     (hsp : ∀ c ∈ cells, c.term = true → c.sp = true)
     (ls : List (List Cell)) (h : richLines lb width cells = .ok ls) : noTermInLines ls = true :=
-  scanAll_noterm _ (richOracle_ok lb) (richOracle_term lb) width _ cells () ls hsp h
+  scanAll_noterm _ () (richOracle_ok lb) ((richOracle_term lb).toW ()) width _ cells () ls trivial hsp h
 
 /-- "never split a run of letters that would fit on a line of its own", end to end, richtext: in the
 lines of the whole iteration, two neighbouring non-whitespace graphemes of one unbreakable run
